@@ -282,6 +282,7 @@ def _run_unit_once(unit_path, gen_dir=None, rlimit=None, seed=None, exclude=()):
     res.items = g.items
     res.rules_used = g.rules_used
     res.fuzzy = g.fuzzy
+    res.lost = g.lost
     res.assumptions = scan_assumptions(text)
     res.fns = [dict(qual=f['qual'], emit_name=f['emit_name'], known=f['known'], props=f['props'], safety=f['safety'],
                     src=f['src'], src_lines=f['src_lines'], mode=f['mode'], excluded=f.get('excluded', False),
